@@ -199,6 +199,18 @@ def respell(text: str, how: str) -> bytes | str:
         mid = {"comment-in-text": "<!--c-->", "pi-in-text": "<?p d?>", "cdata-in-text": f"<![CDATA[{run[half:]}]]>"}[how]
         new = run[:half] + mid + ("" if how == "cdata-in-text" else run[half:])
         return text[: m.start(1)] + new + text[m.end(1):]
+    if how == "entity-in-text":
+        # the second half of the first run of character data through a general entity declared in an internal DTD subset
+        import re
+
+        m = re.search(r">([^<>&]{2,})</", text)
+        root = re.match(r"<([^\s/>]+)", text)
+        if not m or not root or "%" in m.group(1) or ('"' in m.group(1) and "'" in m.group(1)):
+            return text
+        run = m.group(1)
+        half = len(run) // 2
+        q = "'" if '"' in run else '"'
+        return f"<!DOCTYPE {root.group(1)} [<!ENTITY xve {q}{run[half:]}{q}>]>" + text[: m.start(1)] + run[:half] + "&xve;" + text[m.end(1):]
     if how == "pi":
         return "<?pi data?>" + text
     if how == "decl":
@@ -216,4 +228,4 @@ def respell(text: str, how: str) -> bytes | str:
     raise ValueError(how)
 
 
-RESPELL = ["comment", "pi", "decl", "utf16", "latin1", "trailing-ws", "comment-in-text", "pi-in-text", "cdata-in-text"]
+RESPELL = ["comment", "pi", "decl", "utf16", "latin1", "trailing-ws", "comment-in-text", "pi-in-text", "cdata-in-text", "entity-in-text"]
